@@ -21,34 +21,66 @@ def ip_of(i: int) -> str:
     return f"192.168.0.{10 + i}"
 
 
+def _ip_index(ip) -> int:
+    """inverse of ip_of (also for addresses no node owns)"""
+    return int(str(ip).split(".")[-1]) - 10
+
+
 # ------------------------------------------------------------------------------------------ protocol lines
+# A *command* is a node-relative request (dict without the executing node); terminal commands carry a command, so they nest.
+# A top-level operation names the executing node: `x` for the terminal's remote requests (whose target is `y`), `y` otherwise.
+NO_SUCH_SESSION = "00000000-0000-0000-0000-00000000dead"
+FILE = {"op": "file"}
+
+
+def cmd_tokens(c: dict) -> List[str]:
+    k = c["op"]
+    if k == "file":
+        return ["file", str(c["k"])]
+    if k == "adduser":
+        return ["adduser", c["u"], c["p"], "1" if c["admin"] else "0"]
+    if k == "disable":
+        return ["disable", c["u"]]
+    if k == "chpw":
+        return ["chpw", c["u"], c["old"], c["new"]]
+    if k == "lcmd":
+        return ["lcmd", c["u"], c["p"]] + cmd_tokens(c.get("cmd", FILE))
+    if k == "rlogin":
+        return ["rlogin", str(c["y"]), c["u"], c["p"]]
+    if k == "rcmd":
+        return ["rcmd", str(c["y"])] + cmd_tokens(c.get("cmd", FILE))
+    if k == "rlogoff":
+        return ["rlogoff", str(c["y"])]
+    if k == "usmlogin":
+        return ["usmlogin", c["u"], c["p"], str(c["peer"])]
+    if k == "usmlogout":
+        return ["usmlogout", str(c["i"])]
+    if k == "svc":
+        return ["svc", c["s"], c["v"]]
+    if k in ("shutdown", "startup", "reset"):
+        return [k]
+    raise ValueError(k)
+
+
+REMOTE = ("rlogin", "rcmd", "rlogoff")
+
+
+def exec_node(op: dict) -> int:
+    """the node a top-level request operation is sent to"""
+    return op["x"] if op["op"] in REMOTE else op["y"]
+
+
 def op_line(op: dict) -> str:
     k = op["op"]
-    if k == "adduser":
-        return f"adduser {op['y']} {op['u']} {op['p']} {1 if op['admin'] else 0}"
-    if k == "disable":
-        return f"disable {op['y']} {op['u']}"
-    if k == "chpw":
-        return f"chpw {op['y']} {op['u']} {op['old']} {op['new']}"
+    if k == "enable":
+        return f"enable {op['y']} {op['u']}"
     if k == "llogin":
         return f"llogin {op['y']} {op['u']} {op['p']}"
     if k == "llogout":
         return f"llogout {op['y']}"
-    if k == "lcmd":
-        return f"lcmd {op['y']} {op['u']} {op['p']} {op['k']}"
-    if k == "rlogin":
-        return f"rlogin {op['x']} {op['y']} {op['u']} {op['p']}"
-    if k == "rcmd":
-        return f"rcmd {op['x']} {op['y']} {op['k']}"
-    if k == "rlogoff":
-        return f"rlogoff {op['x']} {op['y']}"
-    if k == "svc":
-        return f"svc {op['y']} {op['s']} {op['v']}"
-    if k in ("shutdown", "startup", "reset"):
-        return f"{k} {op['y']}"
     if k == "tick":
         return "tick"
-    raise ValueError(k)
+    return " ".join(["req", str(exec_node(op))] + cmd_tokens(op))
 
 
 def new_line(cfg: dict) -> str:
@@ -60,14 +92,32 @@ def model_lines(case: dict) -> List[str]:
     return ["reset", new_line(case["cfg"])] + [op_line(o) for o in ops]
 
 
+def _number(c: dict, i: int) -> dict:
+    if c["op"] == "file":
+        return dict(c, k=i)
+    if c["op"] in ("rcmd", "lcmd"):
+        return dict(c, cmd=_number(c.get("cmd", FILE), i))
+    return c
+
+
 def number_commands(ops: List[dict]) -> List[dict]:
-    """Every command creates a file named after its position in the sequence (fresh names: no duplicate-create)."""
-    out = []
-    for i, o in enumerate(ops):
-        if o["op"] in ("rcmd", "lcmd"):
-            o = dict(o, k=i)
-        out.append(o)
-    return out
+    """The file command inside operation i creates the file named i (fresh names: no duplicate-create)."""
+    return [_number(o, i) for i, o in enumerate(ops)]
+
+
+def leaf(c: dict) -> dict:
+    """the innermost command of a (nested) terminal command"""
+    while c["op"] in ("rcmd", "lcmd"):
+        c = c.get("cmd", FILE)
+    return c
+
+
+def depth(c: dict) -> int:
+    d = 0
+    while c["op"] in ("rcmd", "lcmd"):
+        c = c.get("cmd", FILE)
+        d += 1
+    return d
 
 
 # ------------------------------------------------------------------------------------------ implementation side
@@ -118,7 +168,7 @@ class Impl:
                 "T": term.operating_state.name, "UM": um.operating_state.name, "USM": usm.operating_state.name,
                 "users": [(u.username, u.password, bool(u.disabled), bool(u.is_admin)) for u in um.users.values()],
                 "loc": None if loc is None else (loc.uuid, loc.user.username, loc.last_active_step),
-                "rem": [(k, s.user.username, s.last_active_step, self.ip_index.get(str(s.remote_ip_address), -1))
+                "rem": [(k, s.user.username, s.last_active_step, _ip_index(s.remote_ip_address))
                         for k, s in usm.remote_sessions.items()],
                 "conns": [(k, self.ip_index.get(str(v.ip_address))) for k, v in term._connections.items()],
                 "files": files,
@@ -127,48 +177,86 @@ class Impl:
         return {"nodes": nodes, "t": self.t}
 
     # -- operations
-    def _req(self, i: int, *path) -> str:
+    def _req(self, i: int, path: list) -> str:
         r = self.sim.apply_request(["network", "node", f"n{i}", *path])
         if r is None:
             return "none"
         return r.status
 
+    def cmd_request(self, node: int, c: dict) -> list:
+        """the node-relative request list of command `c` when executed on node `node`"""
+        k = c["op"]
+        if k == "file":
+            return ["file_system", "create", "file", "root", str(c["k"]), False]
+        if k == "adduser":
+            return ["service", "user-manager", "add_user", c["u"], c["p"], c["admin"]]
+        if k == "disable":
+            return ["service", "user-manager", "disable_user", c["u"]]
+        if k == "chpw":
+            return ["service", "user-manager", "change_password", c["u"], c["old"], c["new"]]
+        if k == "lcmd":
+            return ["service", "terminal", "send_local_command", c["u"], c["p"], {"command": self.cmd_request(node, c.get("cmd", FILE))}]
+        if k == "rlogin":
+            return ["service", "terminal", "node_session_remote_login", c["u"], c["p"], ip_of(c["y"])]
+        if k == "rcmd":
+            return ["service", "terminal", "send_remote_command", ip_of(c["y"]), {"command": self.cmd_request(c["y"], c.get("cmd", FILE))}]
+        if k == "rlogoff":
+            return ["service", "terminal", "remote_logoff", ip_of(c["y"])]
+        if k == "usmlogin":
+            return ["service", "user-session-manager", "remote_login", c["u"], c["p"], ip_of(c["peer"])]
+        if k == "usmlogout":
+            return ["service", "user-session-manager", "remote_logout", _SessionRef(self, node, c["i"])]
+        if k == "svc":
+            return ["service", c["s"], c["v"]]
+        if k in ("shutdown", "startup", "reset"):
+            return [k]
+        raise ValueError(k)
+
     def apply(self, op: dict) -> str:
         k = op["op"]
-        if k == "adduser":
-            return self._req(op["y"], "service", "user-manager", "add_user", op["u"], op["p"], op["admin"])
-        if k == "disable":
-            return self._req(op["y"], "service", "user-manager", "disable_user", op["u"])
-        if k == "chpw":
-            return self._req(op["y"], "service", "user-manager", "change_password", op["u"], op["old"], op["new"])
+        if k in ("llogin", "llogout", "enable") and op["y"] >= len(self.nodes):
+            return "unreachable"
         if k == "llogin":
-            if op["y"] >= len(self.nodes):
-                return "unreachable"
             return "success" if self.nodes[op["y"]].local_login(op["u"], op["p"]) else "failure"
         if k == "llogout":
-            if op["y"] >= len(self.nodes):
-                return "unreachable"
             return "success" if self.nodes[op["y"]].local_logout() else "failure"
-        if k == "lcmd":
-            return self._req(op["y"], "service", "terminal", "send_local_command", op["u"], op["p"],
-                             {"command": ["file_system", "create", "file", "root", str(op["k"]), False]})
-        if k == "rlogin":
-            return self._req(op["x"], "service", "terminal", "node_session_remote_login", op["u"], op["p"], ip_of(op["y"]))
-        if k == "rcmd":
-            return self._req(op["x"], "service", "terminal", "send_remote_command", ip_of(op["y"]),
-                             {"command": ["file_system", "create", "file", "root", str(op["k"]), False]})
-        if k == "rlogoff":
-            return self._req(op["x"], "service", "terminal", "remote_logoff", ip_of(op["y"]))
-        if k == "svc":
-            return self._req(op["y"], "service", op["s"], op["v"])
-        if k in ("shutdown", "startup", "reset"):
-            return self._req(op["y"], k)
+        if k == "enable":
+            return "success" if self.nodes[op["y"]].user_manager.enable_user(op["u"]) else "failure"
         if k == "tick":
             self.t += 1
             self.sim.apply_timestep(self.t)
             self.sim.pre_timestep(self.t)
             return "success"
-        raise ValueError(k)
+        node = exec_node(op)
+        return self._req(node, _resolve(self.cmd_request(node, op)))
+
+
+class _SessionRef:
+    """`remote_logout` takes a session id; the operation names it by position (i-th remote session of the node at the moment
+    the request is executed there), so that the model and the implementation can be given the same operation."""
+
+    def __init__(self, impl: "Impl", node: int, i: int):
+        self.impl, self.node, self.i = impl, node, i
+
+    def resolve(self) -> str:
+        if self.node >= len(self.impl.nodes):
+            return NO_SUCH_SESSION
+        ids = list(self.impl.nodes[self.node].user_session_manager.remote_sessions)
+        return ids[self.i] if self.i < len(ids) else NO_SUCH_SESSION
+
+
+def _resolve(path):
+    """Session references are resolved when the request is sent.  (For a reference inside a terminal command this is the
+    moment the outer request is sent; generators only nest `usmlogout` where nothing on the way changes the target's sessions.)"""
+    out = []
+    for x in path:
+        if isinstance(x, _SessionRef):
+            out.append(x.resolve())
+        elif isinstance(x, dict):
+            out.append({k: _resolve(v) if isinstance(v, list) else v for k, v in x.items()})
+        else:
+            out.append(x)
+    return out
 
 
 def render(status: str, snap: dict) -> str:
@@ -221,6 +309,32 @@ def run_impl(case: dict) -> Tuple[List[str], List[dict], List[str]]:
 
 
 # ------------------------------------------------------------------------------------------ the property's oracle on the implementation
+def _cred_ok(b: dict, u: str, p: str) -> bool:
+    return any(n == u and pw == p and not d for n, pw, d, _ in b["users"]) and b["power"] == "ON"
+
+
+def walk(op: dict, before: dict):
+    """Follow a (nested) request through the terminals on the state BEFORE the operation.
+    Returns (hops_ok, node the innermost command is executed on, innermost command, nodes where an `lcmd` hop logs in)."""
+    nodes = before["nodes"]
+    cur = exec_node(op)
+    c = op
+    ok = cur < len(nodes)
+    local_logins = []
+    while ok and c["op"] in ("rcmd", "lcmd"):
+        if c["op"] == "rcmd":
+            y = c["y"]
+            first = next((cid for cid, peer in nodes[cur]["conns"] if peer == y), None)
+            ok = y < len(nodes) and first is not None and first in [r[0] for r in nodes[y]["rem"]]
+            cur = y
+        else:
+            ok = _cred_ok(nodes[cur], c["u"], c["p"])
+            if ok:
+                local_logins.append((cur, c["u"]))
+        c = c.get("cmd", FILE)
+    return ok, cur, c, local_logins
+
+
 def oracle(case: dict, snaps: List[dict], stats: List[str]) -> Optional[Tuple[dict, str, int]]:
     """C16 evaluated directly on what the implementation did (independent of the Lean model).
     Returns (signature, message, op index) for the first failure."""
@@ -232,30 +346,30 @@ def oracle(case: dict, snaps: List[dict], stats: List[str]) -> Optional[Tuple[di
             return ({"kind": "raised", "op": op["op"], "exc": st.split(":")[1]}, f"{op_line(op)} raised {st}", i)
         before, after = snaps[i], snaps[i + 1]
         k = op["op"]
+        if k in ("tick", "llogin", "llogout", "enable"):
+            ok_chain, final, inner, llogins = False, None, {"op": k}, []
+        else:
+            ok_chain, final, inner, llogins = walk(op, before)
+        nested = k in ("rcmd", "lcmd")
         for j, (b, a) in enumerate(zip(before["nodes"], after["nodes"])):
-            # commands run only on live sessions / valid local credentials
+            # commands run only on live sessions / valid local credentials (at every hop of a nested command)
             if a["files"] != b["files"]:
-                ok = False
-                if k == "rcmd" and op["y"] == j and op["x"] < len(before["nodes"]):
-                    first = next((cid for cid, peer in before["nodes"][op["x"]]["conns"] if peer == j), None)
-                    ok = first is not None and first in [r[0] for r in b["rem"]]
-                elif k == "lcmd" and op["y"] == j:
-                    ok = any(u == op["u"] and p == op["p"] and not d for u, p, d, _ in b["users"]) and b["power"] == "ON"
+                ok = ok_chain and final == j and inner["op"] == "file" and b["power"] == "ON"
                 if not ok:
                     return ({"kind": "command-without-live-session", "op": k}, f"op {i} {op_line(op)} changed files of node {j} "
                             f"without a live session / valid credentials", i)
             # sessions appear only through a valid login
             new_rem = [r for r in a["rem"] if r[0] not in [x[0] for x in b["rem"]]]
             if new_rem:
-                ok = (k == "rlogin" and op["y"] == j and len(new_rem) == 1 and b["power"] == "ON"
-                      and any(u == op["u"] and p == op["p"] and not d for u, p, d, _ in b["users"]) and len(b["rem"]) < b["max"]
-                      and new_rem[0][1] == op["u"])
+                ok = (ok_chain and len(new_rem) == 1 and _cred_ok(b, inner.get("u"), inner.get("p")) and len(b["rem"]) < b["max"]
+                      and new_rem[0][1] == inner.get("u")
+                      and ((inner["op"] == "rlogin" and inner["y"] == j) or (inner["op"] == "usmlogin" and final == j)))
                 if not ok:
                     return ({"kind": "session-without-valid-login", "op": k}, f"op {i} {op_line(op)} created a remote session on "
                             f"node {j} without valid credentials / under the limit / power", i)
             if a["loc"] is not None and (b["loc"] is None or b["loc"][0] != a["loc"][0]):
-                ok = (k in ("llogin", "lcmd") and op["y"] == j and b["power"] == "ON" and a["loc"][1] == op["u"]
-                      and any(u == op["u"] and p == op["p"] and not d for u, p, d, _ in b["users"]))
+                ok = (k == "llogin" and op["y"] == j and a["loc"][1] == op["u"] and _cred_ok(b, op["u"], op["p"])) or \
+                     any(nd == j and u == a["loc"][1] for nd, u in llogins)
                 if not ok:
                     return ({"kind": "session-without-valid-login", "op": k}, f"op {i} {op_line(op)} created a local session on "
                             f"node {j} without valid credentials", i)
@@ -269,30 +383,51 @@ def oracle(case: dict, snaps: List[dict], stats: List[str]) -> Optional[Tuple[di
             if len(a["rem"]) > a["max"]:
                 return ({"kind": "limit-exceeded", "op": k}, f"op {i} {op_line(op)}: more than max_remote_sessions on node {j}", i)
             if not any(adm and not d for _, _, d, adm in a["users"]):
-                return ({"kind": "no-enabled-admin", "op": k}, f"op {i} {op_line(op)}: node {j} has no enabled admin", i)
+                return ({"kind": "no-enabled-admin", "op": k, "nested": nested},
+                        f"op {i} {op_line(op)}: node {j} has no enabled admin", i)
+            # a password change ends every session of the user on that node (whoever asked for it, at whatever depth)
+            for (u, pw, _, _) in a["users"]:
+                was = next((x for x in b["users"] if x[0] == u), None)
+                if was is not None and was[1] != pw:
+                    if any(r[1] == u for r in a["rem"]) or (a["loc"] is not None and a["loc"][1] == u):
+                        return ({"kind": "session-survives-password-change", "op": k}, f"op {i} {op_line(op)}: a session of {u} "
+                                f"is still open on node {j}", i)
+            # one client per session id: connections with the same id on two nodes point at each other
+            for cid, peer in a["conns"]:
+                for j2, a2 in enumerate(after["nodes"]):
+                    if j2 != j and any(c2 == cid and (peer != j2 or p2 != j) for c2, p2 in a2["conns"]):
+                        return ({"kind": "connection-id-shared", "op": k}, f"op {i} {op_line(op)}: connection id held by nodes "
+                                f"{j} and {j2} that are not each other's peer", i)
         # a successful login answer needs valid credentials on the target
         if k == "rlogin" and st == "success":
             y = op["y"]
             b = before["nodes"][y] if y < len(before["nodes"]) else None
-            if b is None or not any(u == op["u"] and p == op["p"] and not d for u, p, d, _ in b["users"]) or b["power"] != "ON":
+            if b is None or not _cred_ok(b, op["u"], op["p"]):
                 return ({"kind": "login-without-valid-credentials", "op": k}, f"op {i} {op_line(op)} answered success", i)
-        if k == "llogin" and st == "success":
+        if k in ("llogin", "usmlogin") and st == "success":
             b = before["nodes"][op["y"]]
-            if not any(u == op["u"] and p == op["p"] and not d for u, p, d, _ in b["users"]) or b["power"] != "ON":
+            if not _cred_ok(b, op["u"], op["p"]):
                 return ({"kind": "login-without-valid-credentials", "op": k}, f"op {i} {op_line(op)} answered success", i)
         # the answer of a remote command tells what happened on the target
-        if k == "rcmd":
+        if k == "rcmd" and op.get("cmd", FILE)["op"] == "file":
             y = op["y"]
             changed = y < len(before["nodes"]) and after["nodes"][y]["files"] != before["nodes"][y]["files"]
             if (st == "success") != changed:
                 return ({"kind": "remote-command-answer-wrong", "op": k, "answer": st, "executed": changed},
                         f"op {i} {op_line(op)} answered {st} but the command was {'executed' if changed else 'not executed'}", i)
-        # a password change ends every session of the user on that node
         if k == "chpw" and st == "success":
             a = after["nodes"][op["y"]]
             if any(r[1] == op["u"] for r in a["rem"]) or (a["loc"] is not None and a["loc"][1] == op["u"]):
                 return ({"kind": "session-survives-password-change", "op": k}, f"op {i} {op_line(op)}: a session of {op['u']} "
                         f"is still open", i)
+        # a client-side logoff leaves no connection with that id on any node other than the target
+        if k == "rlogoff" and st == "success":
+            x, y = op["x"], op["y"]
+            cid = next((c for c, peer in before["nodes"][x]["conns"] if peer == y), None)
+            for j, a in enumerate(after["nodes"]):
+                if j != y and any(c == cid for c, _ in a["conns"]):
+                    return ({"kind": "logoff-left-client-connection", "op": k}, f"op {i} {op_line(op)}: node {j} still holds the "
+                            f"connection", i)
         # time-out: after a tick no session idle for >= timeout steps is left
         if k == "tick":
             for j, a in enumerate(after["nodes"]):
@@ -305,8 +440,57 @@ def oracle(case: dict, snaps: List[dict], stats: List[str]) -> Optional[Tuple[di
 
 # ------------------------------------------------------------------------------------------ generation
 def gen_cfg(rng: Rng) -> dict:
-    return {"n": rng.choice([2, 3, 3]), "su": rng.choice([1, 1, 2]), "sd": rng.choice([1, 1, 2]), "rd": rng.choice([1, 2]),
+    # start-up / shut-down duration 0 = the node changes state inside the request (DESIGN F-14 and its reset twin are repaired)
+    return {"n": rng.choice([2, 3, 3]), "su": rng.choice([0, 1, 1, 2]), "sd": rng.choice([0, 1, 1, 2]), "rd": rng.choice([1, 2]),
             "max": rng.choice([1, 2, 3]), "lto": rng.choice([2, 3, 5]), "rto": rng.choice([2, 3, 4, 6])}
+
+
+def _creds(rng: Rng, known: Dict[int, Dict[str, str]], y: int):
+    users = known.get(y, {"admin": "admin"})
+    u = rng.choice(list(users)) if not rng.chance(1, 8) else rng.choice(USERS)
+    right = users.get(u, "admin")
+    p = right if rng.chance(3, 4) else rng.choice(PASSWORDS)
+    return u, p
+
+
+def gen_cmd(rng: Rng, cfg: dict, known: Dict[int, Dict[str, str]], node: int, fuel: int) -> dict:
+    """a command to be executed on `node` (what a terminal command carries); mostly the file command, otherwise any request,
+    including terminal requests towards a further node (nesting depth bounded by `fuel`)"""
+    n = cfg["n"]
+    r = rng.below(100)
+    if r < 45 or node >= n:
+        return dict(FILE)
+    u, p = _creds(rng, known, node)
+    if r < 53:
+        return {"op": "disable", "u": u}
+    if r < 59:
+        return {"op": "adduser", "u": rng.choice(USERS + ADMINS), "p": rng.choice(PASSWORDS), "admin": rng.chance(1, 2)}
+    if r < 66:
+        return {"op": "chpw", "u": u, "old": p, "new": rng.choice(PASSWORDS)}
+    if r < 70:
+        return {"op": "svc", "s": rng.choice(SVC), "v": rng.choice(["stop", "start", "restart", "pause"])}
+    if r < 72:
+        return {"op": rng.choice(["shutdown", "reset"])}
+    if r < 75:
+        return {"op": "usmlogout", "i": rng.below(3)}
+    if r < 78:
+        return {"op": "usmlogin", "u": u, "p": p, "peer": rng.below(n + 1)}
+    z = rng.below(n)
+    if z == node and not rng.chance(1, 10):
+        z = (node + 1) % n
+    if r < 84:
+        uz, pz = _creds(rng, known, z)
+        return {"op": "rlogin", "y": z, "u": uz, "p": pz}
+    if r < 87:
+        return {"op": "rlogoff", "y": z}
+    if fuel <= 0:
+        return dict(FILE)
+    if r < 95:
+        return {"op": "rcmd", "y": z, "cmd": gen_cmd(rng, cfg, known, z, fuel - 1)}
+    return {"op": "lcmd", "u": u, "p": p, "cmd": gen_cmd(rng, cfg, known, node, fuel - 1)}
+
+
+ADMINS = ["adm2", "adm3"]
 
 
 def gen_op(rng: Rng, cfg: dict, known: Dict[int, Dict[str, str]], malformed: bool = False) -> dict:
@@ -318,32 +502,36 @@ def gen_op(rng: Rng, cfg: dict, known: Dict[int, Dict[str, str]], malformed: boo
         x = (y + 1) % n
     if malformed and rng.chance(1, 3):
         y = rng.choice([n, n + 1])          # an address nobody owns
-    users = known.get(y, {"admin": "admin"})
-    u = rng.choice(list(users)) if not rng.chance(1, 8) else rng.choice(USERS)
-    right = users.get(u, "admin")
-    p = right if rng.chance(3, 4) else rng.choice(PASSWORDS)
+    u, p = _creds(rng, known, y)
     r = rng.below(100)
-    if r < 16:
+    if r < 14:
         return {"op": "rlogin", "x": x, "y": y, "u": u, "p": p}
-    if r < 36:
-        return {"op": "rcmd", "x": x, "y": y}
-    if r < 43:
+    if r < 34:
+        return {"op": "rcmd", "x": x, "y": y, "cmd": gen_cmd(rng, cfg, known, y, 2)}
+    if r < 40:
         return {"op": "rlogoff", "x": x, "y": y}
-    if r < 58:
+    if r < 54:
         return {"op": "tick"}
-    if r < 63:
-        nu = rng.choice(USERS)
-        return {"op": "adduser", "y": y, "u": nu, "p": rng.choice(PASSWORDS), "admin": rng.chance(1, 3)}
-    if r < 67:
+    if r < 59:
+        return {"op": "adduser", "y": y, "u": rng.choice(USERS + ADMINS), "p": rng.choice(PASSWORDS), "admin": rng.chance(1, 2)}
+    if r < 64:
         return {"op": "disable", "y": y, "u": u}
-    if r < 74:
+    if r < 66:
+        return {"op": "enable", "y": y, "u": u}
+    if r < 72:
         return {"op": "chpw", "y": y, "u": u, "old": p, "new": rng.choice(PASSWORDS)}
-    if r < 79:
+    if r < 76:
         return {"op": "llogin", "y": y, "u": u, "p": p}
-    if r < 81:
+    if r < 78:
         return {"op": "llogout", "y": y}
-    if r < 85:
-        return {"op": "lcmd", "y": y, "u": u, "p": p}
+    if r < 82:
+        return {"op": "lcmd", "y": y, "u": u, "p": p, "cmd": gen_cmd(rng, cfg, known, y, 2)}
+    if r < 84:
+        return {"op": "usmlogin", "y": y, "u": u, "p": p, "peer": rng.below(n + 1)}
+    if r < 86:
+        return {"op": "usmlogout", "y": y, "i": rng.below(3)}
+    if r < 87:
+        return {"op": "file", "y": y}
     if r < 93:
         return {"op": "svc", "y": y, "s": rng.choice(SVC), "v": rng.choice(VERBS if rng.chance(1, 2) else ["stop", "start", "restart"])}
     if r < 96:
@@ -355,12 +543,66 @@ def gen_op(rng: Rng, cfg: dict, known: Dict[int, Dict[str, str]], malformed: boo
 
 def track(known: Dict[int, Dict[str, str]], op: dict):
     """Optimistic bookkeeping of credentials so that later operations are mostly valid."""
-    if op["op"] == "adduser":
-        known.setdefault(op["y"], {"admin": "admin"}).setdefault(op["u"], op["p"])
-    if op["op"] == "chpw":
-        us = known.setdefault(op["y"], {"admin": "admin"})
-        if us.get(op["u"]) == op["old"]:
-            us[op["u"]] = op["new"]
+    if op["op"] in ("tick", "llogin", "llogout", "enable"):
+        return
+    _, node, c, _ = walk_static(op)
+    if c["op"] == "adduser":
+        known.setdefault(node, {"admin": "admin"}).setdefault(c["u"], c["p"])
+    if c["op"] == "chpw":
+        us = known.setdefault(node, {"admin": "admin"})
+        if us.get(c["u"]) == c["old"]:
+            us[c["u"]] = c["new"]
+
+
+def walk_static(op: dict):
+    cur = exec_node(op)
+    c = op
+    while c["op"] in ("rcmd", "lcmd"):
+        if c["op"] == "rcmd":
+            cur = c["y"]
+        c = c.get("cmd", FILE)
+    return True, cur, c, []
+
+
+def admin_story(rng: Rng, cfg: dict, known: Dict[int, Dict[str, str]]) -> List[dict]:
+    """Several administrator accounts on one node, some of them disabled (directly, through a remote terminal command, or
+    through a local one), some enabled again, then every remaining enabled administrator is attacked the same three ways."""
+    n = cfg["n"]
+    y = rng.below(n)
+    x = (y + 1 + rng.below(n - 1)) % n
+    ops: List[dict] = []
+    admins = ["admin"]
+    for name in ADMINS[: rng.range(1, 2)]:
+        pw = rng.choice(PASSWORDS)
+        ops.append({"op": "adduser", "y": y, "u": name, "p": pw, "admin": True})
+        known[y][name] = pw
+        admins.append(name)
+    if rng.chance(1, 2):
+        ops.append({"op": "adduser", "y": y, "u": "u1", "p": "pw1", "admin": False})
+        known[y]["u1"] = "pw1"
+    via_remote = rng.chance(2, 3)
+    if via_remote:
+        who = rng.choice(admins)
+        ops.append({"op": "rlogin", "x": x, "y": y, "u": who, "p": known[y][who]})
+
+    def attack(u: str) -> dict:
+        how = rng.below(3 if via_remote else 2)
+        if how == 0:
+            return {"op": "disable", "y": y, "u": u}
+        if how == 1:
+            who = rng.choice(admins)
+            return {"op": "lcmd", "y": y, "u": who, "p": known[y][who], "cmd": {"op": "disable", "u": u}}
+        return {"op": "rcmd", "x": x, "y": y, "cmd": {"op": "disable", "u": u}}
+    order = rng.shuffle(admins)
+    for u in order[:-1] if rng.chance(3, 4) else order:
+        ops.append(attack(u))
+        if rng.chance(1, 5):
+            ops.append({"op": "enable", "y": y, "u": rng.choice(admins)})
+        if rng.chance(1, 6):
+            ops.append({"op": "tick"})
+    for u in order[::-1]:
+        ops.append(attack(u))
+    return ops
 
 
 def gen_case(rng: Rng, max_ops: int = 30) -> dict:
@@ -368,11 +610,13 @@ def gen_case(rng: Rng, max_ops: int = 30) -> dict:
     known: Dict[int, Dict[str, str]] = {i: {"admin": "admin"} for i in range(cfg["n"])}
     ops: List[dict] = []
     malformed = rng.chance(1, 6)
-    story = rng.below(6)
+    story = rng.below(8)
     n = cfg["n"]
     if story == 0:      # several sessions of one user, then a password change, then commands
         for _ in range(rng.range(2, cfg["max"] + 1)):
             ops.append({"op": "rlogin", "x": rng.choice([0, n - 1]), "y": 1 % n if n > 1 else 0, "u": "admin", "p": "admin"})
+        if rng.chance(1, 2):
+            ops.append({"op": "llogin", "y": 1, "u": "admin", "p": "admin"})
     elif story == 1:    # run into the session limit
         for _ in range(cfg["max"] + 1):
             ops.append({"op": "rlogin", "x": 0, "y": 1, "u": "admin", "p": "admin"})
@@ -383,6 +627,12 @@ def gen_case(rng: Rng, max_ops: int = 30) -> dict:
         ops.append({"op": "rlogin", "x": 0, "y": 1, "u": "admin", "p": "admin"})
         ops.append(rng.choice([{"op": "shutdown", "y": 1}, {"op": "svc", "y": 1, "s": rng.choice(SVC), "v": "stop"},
                                {"op": "shutdown", "y": 0}, {"op": "svc", "y": 0, "s": "terminal", "v": "stop"}]))
+    elif story in (4, 5):   # several administrators, the last enabled one attacked
+        ops += admin_story(rng, cfg, known)
+    elif story == 6 and n >= 3:    # a chain of sessions 0 -> 1 -> 2, so that nested commands find live sessions
+        ops.append({"op": "rlogin", "x": 0, "y": 1, "u": "admin", "p": "admin"})
+        ops.append({"op": "rcmd", "x": 0, "y": 1, "cmd": {"op": "rlogin", "y": 2, "u": "admin", "p": "admin"}})
+        ops.append({"op": "rcmd", "x": 0, "y": 1, "cmd": {"op": "rcmd", "y": 2, "cmd": dict(FILE)}})
     for _ in range(rng.range(3, max_ops)):
         op = gen_op(rng, cfg, known, malformed)
         track(known, op)
@@ -407,6 +657,41 @@ def alphabet(cfg: dict) -> List[dict]:
         {"op": "disable", "y": 1, "u": "admin"},
         {"op": "adduser", "y": 1, "u": "u1", "p": "pw1", "admin": True},
         {"op": "lcmd", "y": 1, "u": "admin", "p": "admin"},
+    ]
+
+
+def admin_alphabet() -> List[dict]:
+    """Bounded-exhaustive family for the last-administrator rule: two administrator accounts on node 1, every way to disable /
+    enable them (direct request, remote terminal command, local terminal command, Python API for enable)."""
+    out = []
+    for u in ("admin", "adm2"):
+        out.append({"op": "disable", "y": 1, "u": u})
+        out.append({"op": "rcmd", "x": 0, "y": 1, "cmd": {"op": "disable", "u": u}})
+        out.append({"op": "enable", "y": 1, "u": u})
+    out.append({"op": "lcmd", "y": 1, "u": "adm2", "p": "pw2", "cmd": {"op": "disable", "u": "admin"}})
+    out.append({"op": "adduser", "y": 1, "u": "adm3", "p": "pw1", "admin": True})
+    return out
+
+
+ADMIN_PREFIX = [{"op": "adduser", "y": 1, "u": "adm2", "p": "pw2", "admin": True},
+                {"op": "rlogin", "x": 0, "y": 1, "u": "admin", "p": "admin"}]
+
+
+def session_alphabet() -> List[dict]:
+    """Bounded-exhaustive family for the direct user-session-manager requests and nested commands (three nodes)."""
+    return [
+        {"op": "usmlogin", "y": 1, "u": "admin", "p": "admin", "peer": 0},
+        {"op": "usmlogin", "y": 1, "u": "admin", "p": "pw1", "peer": 2},
+        {"op": "usmlogout", "y": 1, "i": 0},
+        {"op": "usmlogout", "y": 1, "i": 1},
+        {"op": "rlogin", "x": 0, "y": 1, "u": "admin", "p": "admin"},
+        {"op": "rcmd", "x": 0, "y": 1, "cmd": {"op": "rlogin", "y": 2, "u": "admin", "p": "admin"}},
+        {"op": "rcmd", "x": 0, "y": 1, "cmd": {"op": "rcmd", "y": 2, "cmd": dict(FILE)}},
+        {"op": "rcmd", "x": 0, "y": 1, "cmd": {"op": "usmlogout", "i": 0}},
+        {"op": "rcmd", "x": 0, "y": 1, "cmd": {"op": "rlogoff", "y": 2}},
+        {"op": "rlogoff", "x": 0, "y": 1},
+        {"op": "tick"},
+        {"op": "svc", "y": 1, "s": "user-session-manager", "v": "stop"},
     ]
 
 
